@@ -32,6 +32,7 @@ import functools
 import importlib
 import inspect
 import itertools
+import linecache
 import os
 import shutil
 import sys
@@ -65,7 +66,7 @@ ASSUMPTIONS = [
     "an empty docstring is treated as no docstring; property getter docstrings count as function docstrings",
     "base classes are compared after resolution through the loaded modules collection (Class.resolved_bases semantics)",
 ]
-BUDGET_S = {"quick": 90.0, "thorough": 1100.0}
+BUDGET_S = {"quick": 75.0, "thorough": 1100.0}
 SHRINK_MAX_EXAMPLES = 4000
 
 sys.dont_write_bytecode = True
@@ -411,6 +412,7 @@ def check_case(case) -> list[Fail]:
         compare(top, ssum, dsum, "module", src, cpy, fails)
     finally:
         shutil.rmtree(root, ignore_errors=True)
+        linecache.clearcache()
     # one failure per (bucket): keep messages short, render the package name neutrally
     seen = set()
     out = []
@@ -456,8 +458,17 @@ KNOWN = {"class-private-name-mangling": _is_name_mangling}
 def run_shard(ctx) -> None:
     global _TMP
     _TMP = ctx.tmp  # removed by the runner
-    n = ctx.scale(320, 9000)
     gen.STEERED.clear()
-    ctx.run_hypothesis(strategy(ctx), check_case, n, describe=gen.describe)
+    # generation alone costs ~20 ms per case: once the wall-clock budget is exhausted the strategy returns a constant
+    # without drawing, so that the remaining examples of the Hypothesis run cost nothing (they are not evaluated)
+    import hypothesis.errors
+
+    try:
+        ctx.run_hypothesis(gen.cases(_feats(ctx.known), stop=ctx.out_of_budget), check_case, ctx.scale(450, 9000), describe=gen.describe)
+    except hypothesis.errors.HypothesisException:
+        # Hypothesis notices the strategy's early exit when it re-runs a choice sequence ("inconsistent data generation");
+        # that can only happen after the budget ran out, and then it simply ends the search
+        if not ctx.res.budget_exhausted:
+            raise
     for slug, count in gen.STEERED.items():
         ctx.excluded(slug, count)
